@@ -39,7 +39,7 @@ man = {
                  "kind_free_text": "Coq 8.16.1 theorems over hand-written Gallina models (coq/), tied to /repo on every run by evaluating the model inside Coq (vm_compute) on the same cases as the implementation; Python-ast translators regenerate table-like parts"}],
     "checks": checks,
     "not_applicable": na,
-    "notes": "See DESIGN.md.  known_findings.json lists genuine defects recorded rather than repaired; fixed defects are `fix:` commits in /repo.",
+    "notes": "See DESIGN.md.  known_findings/Cxx.json (one file per property, never written at run time) lists under \"findings\" the genuine defects recorded rather than repaired (each printed as a KNOWN-FINDING line) and under \"fixed\" the defects repaired by `fix:` commits in /repo (these suppress nothing).",
 }
 json.dump(man, open(os.path.join(V, "MANIFEST.json"), "w"), indent=1)
 print(f"{len(checks)} checks, {len(na)} not_applicable")
